@@ -11,7 +11,7 @@ use crate::engine::{replay_from_file, show_bytes, CheckResult, Ctx, Failure, Obs
 use crate::fail;
 use crate::gen::{choices_strategy, doc_strategy, Doc};
 use crate::reader_model::{classify, history_strategy, run_history, History, Oracles};
-use crate::source::{chunk_strategy, ctor_strategy, schedule_strategy, Ctor, Feed};
+use crate::source::{chunk_strategy, ctor_strategy, schedule_strategy, Feed};
 
 pub fn def() -> PropDef {
     PropDef {
@@ -73,8 +73,10 @@ pub fn check_stream(c: &Case, obs: &mut Obs) -> CheckResult {
         obs.nontrivial();
     }
     obs.class_if(log.interrupts > 0, "interrupted-reads");
+    obs.class_if(log.prefilled > 0, "prefilled-bufreader");
     for i in 0..n {
-        let allowed = r.item_end[i];
+        // a pre-filled BufReader pulled (at most one line of) bytes before parsing started
+        let allowed = r.item_end[i].max(log.prefilled);
         let got = t.marks[i].delivered;
         if got > allowed {
             fail!(
@@ -135,9 +137,6 @@ fn run(ctx: &Ctx) {
             )
         })
         .prop_map(|(spec, doc, choices, sched, chunk, ctor)| {
-            // a pre-filled BufReader has already pulled bytes from the source before parsing starts;
-            // that is outside what the property describes
-            let ctor = if matches!(ctor, Ctor::BufReader(_)) { Ctor::FromRead } else { ctor };
             Case {
                 spec,
                 doc,
